@@ -96,6 +96,7 @@ func newFakeAccount(index uint64) *fakeAccount {
 // every epoch.
 type fixedAccounts struct {
 	accts []*fakeAccount
+	f     faults
 }
 
 func newFixedAccounts(n int) *fixedAccounts {
@@ -128,7 +129,10 @@ func (f *fixedAccounts) ValidatingAccountsForEpoch(context.Context, phase0.Epoch
 	return f.all(), nil
 }
 
-func (f *fixedAccounts) ValidatingAccountsForEpochByIndex(_ context.Context, _ phase0.Epoch, indices []phase0.ValidatorIndex) (map[phase0.ValidatorIndex]e2wtypes.Account, error) {
+func (f *fixedAccounts) ValidatingAccountsForEpochByIndex(ctx context.Context, epoch phase0.Epoch, indices []phase0.ValidatorIndex) (map[phase0.ValidatorIndex]e2wtypes.Account, error) {
+	if f.f.hit("accounts-err", callOf(ctx)<<16^uint64(epoch)<<4^uint64(len(indices))) {
+		return nil, strErr("scripted accounts failure")
+	}
 	return f.byIndex(indices), nil
 }
 
